@@ -26,6 +26,79 @@ class ScheduleAbort(BaseException):
     """Raised inside workers when the step cap is exceeded."""
 
 
+_ACTIVE = {"baton": None, "tids": {}}  # the scheduler of the run in progress (set by run_threads)
+
+
+class SimLock:
+    """
+    Lock handed to the code under test in place of threading.Lock / RLock (installed by
+    core.bootstrap while pyubx2 is imported, so module- and class-level locks are of this kind).
+    Outside a scheduled run it is an ordinary lock.  Inside one, a worker that finds the lock taken
+    does not block in C (the holder is parked and could never release it): it hands the baton to
+    another thread and retries when it gets the baton back - an intercepted synchronisation point.
+    """
+
+    def __init__(self, reentrant=False):
+        import _thread  # pylint: disable=import-outside-toplevel
+
+        self._real = _thread.allocate_lock()
+        self._reentrant = reentrant
+        self._owner = None
+        self._count = 0
+
+    def _try(self, blocking, timeout):
+        me = threading.get_ident()
+        if self._reentrant and self._owner == me:
+            self._count += 1
+            return True
+        ok = self._real.acquire(blocking, timeout) if blocking else self._real.acquire(False)
+        if ok:
+            self._owner = me
+            self._count = 1
+        return ok
+
+    def acquire(self, blocking=True, timeout=-1):
+        baton = _ACTIVE["baton"]
+        tid = _ACTIVE["tids"].get(threading.get_ident()) if baton is not None else None
+        if baton is None or tid is None or not blocking:
+            return self._try(blocking, timeout)
+        while not self._try(False, -1):
+            baton.blocked_yield(tid)
+        return True
+
+    def release(self):
+        if self._reentrant:
+            if self._owner != threading.get_ident():
+                raise RuntimeError("cannot release un-acquired lock")
+            self._count -= 1
+            if self._count:
+                return
+        self._owner = None
+        self._count = 0
+        self._real.release()
+
+    def locked(self):
+        return self._real.locked()
+
+    __enter__ = acquire
+
+    def __exit__(self, *exc):
+        self.release()
+        return False
+
+    # what threading.Condition expects of an RLock-like object
+    def _is_owned(self):
+        return self._owner == threading.get_ident()
+
+
+def sim_lock():
+    return SimLock(False)
+
+
+def sim_rlock():
+    return SimLock(True)
+
+
 class Baton:
     """Scheduler shared by the worker threads of one run."""
 
@@ -47,6 +120,8 @@ class Baton:
             self.replay = {(d["t"], d["op"], d["s"]): d["to"] for d in replay}
         self.sites = {}
         self.aborted = False
+        self.deadlock = False
+        self.lock_yields = 0
         self.pct_points = None
         if self.policy.get("kind") == "pct" and rng is not None:
             est = self.policy.get("est", 2000)
@@ -96,6 +171,23 @@ class Baton:
         self.current = target
         self.sems[target].release()
         self.sems[tid].acquire()
+
+    def blocked_yield(self, tid):
+        """The running thread cannot proceed (lock held by a parked thread): run somebody else."""
+        self.lock_yields += 1
+        if self.lock_yields > 200_000:
+            self.aborted = True
+            self.deadlock = True
+            raise ScheduleAbort()
+        for k in range(1, self.n + 1):
+            cand = (tid + k) % self.n
+            if cand != tid and not self.done[cand]:
+                self._switch(tid, cand)
+                return
+        # every other thread has finished and the lock is still held: nobody will ever release it
+        self.aborted = True
+        self.deadlock = True
+        raise ScheduleAbort()
 
     def wait_turn(self, tid):
         self.sems[tid].acquire()
@@ -206,6 +298,7 @@ def run_threads(op_lists, run_op, policy=None, rng=None, replay=None, granularit
             baton.finish(tid)
 
     threads = [threading.Thread(target=worker, args=(i,), name=f"dst-worker-{i}", daemon=True) for i in range(n)]
+    _ACTIVE["baton"], _ACTIVE["tids"] = baton, idents
     for t in threads:
         t.start()
     if granularity == "instruction":
@@ -220,6 +313,7 @@ def run_threads(op_lists, run_op, policy=None, rng=None, replay=None, granularit
         baton.join()
     for t in threads:
         t.join(timeout=10)
+    _ACTIVE["baton"], _ACTIVE["tids"] = None, {}
     if errors:
         raise core.HarnessError("worker thread failed: " + "; ".join(errors))
     return results, baton
